@@ -212,6 +212,21 @@ def run_case(vk, case):
             fail("lp-not-invariant", f"p={p} kind={case['kind']}: {dPQ}")
         if not same and dPQ == 0:
             fail("lp-zero-for-different-distributions", f"p={p}")
+    # short-lived profiles: the distance is a function of the two distributions, whatever happened to other profile
+    # objects before (same number of ballots and the same total weight, the weights dealt differently)
+    import gc
+    ws = [b["w"] for b in case["P"]]
+    for j in range(1, min(4, len(ws)) + 1):
+        rot = ws[j % len(ws):] + ws[:j % len(ws)]
+        Pj = [dict(b, w=w) for b, w in zip(case["P"], rot)]
+        sp, sq = shares(Pj), shares(case["Q"])
+        exact = sum(abs(sp.get(k, 0) - sq.get(k, 0)) for k in set(sp) | set(sq))
+        out = run_impl(lambda: float(D.lp_dist(mk(Pj), Q, 1)))
+        gc.collect()
+        if out[0] != "ok":
+            fail("lp-raises", out[2])
+        elif abs(out[1] - float(exact)) > 1e-9 * max(float(exact), 1e-300) + 1e-15:
+            fail("lp-depends-on-earlier-profiles", f"temporary #{j}: {out[1]} vs exact {float(exact)}")
     req = {"op": "lp", "P": case["P"], "Q": case["Q"], "ps": ps}
     expect = {"vals": {str(p): vals[p] for p in ps}, "inf": vals["inf"]}
     return {"req": req, "expect": expect, "monitors": monitors, "tags": tags}
